@@ -17,6 +17,7 @@ import (
 	"sort"
 	"strconv"
 	"strings"
+	"unicode/utf8"
 
 	"github.com/dolthub/go-mysql-server/sql"
 	"github.com/dolthub/go-mysql-server/verifharness/hx"
@@ -232,6 +233,9 @@ func extract(a hx.ExtractArgs) error {
 	})
 	lf.DefStringList("writerReplaceArgs", replaceArgs)
 	lf.DefStringList("writerNullSpellings", nullWrites)
+	if err := extractScanner(a, lf, ld); err != nil {
+		return err
+	}
 	return lf.Write(a.Out)
 }
 
@@ -322,6 +326,13 @@ func (v val) sexp() string {
 	case v.null:
 		return "null"
 	case v.text:
+		// a long run of one character is sent as (tr <hex of the character> <count>)
+		if len(v.s) >= 64 {
+			_, w := utf8.DecodeRuneInString(v.s)
+			if len(v.s)%w == 0 && v.s == strings.Repeat(v.s[:w], len(v.s)/w) {
+				return hx.List("tr", hx.HexS(v.s[:w]), strconv.Itoa(len(v.s)/w))
+			}
+		}
 		return hx.List("t", hx.HexS(v.s))
 	}
 	return hx.List("n", hx.HexS(v.s))
@@ -626,7 +637,7 @@ func run(a hx.RunArgs) error {
 		return err
 	}
 	defer os.RemoveAll(dir)
-	if err := sql.SystemVariables.AssignValues(map[string]interface{}{"secure_file_priv": dir}); err != nil {
+	if err := sql.SystemVariables.AssignValues(map[string]interface{}{"secure_file_priv": dir, "local_infile": 1}); err != nil {
 		return err
 	}
 	out := hx.NewOut(a.OutDir)
@@ -634,7 +645,12 @@ func run(a hx.RunArgs) error {
 	out.Rule = "rt: random option sets (terminators of 1-2 bytes, enclosure, OPTIONALLY, escape, line prefix; 1/8 ambiguous sets for the " +
 		"correspondence only) x 0-4 rows of 1-4 TEXT/INT columns (NULLs, empty strings, 40% of the cases with delimiter/quote/escape/newline bytes or the " +
 		"NULL spelling inside values); rd: the reader alone on random bytes built from the delimiters; typed: one value per non-string column type " +
-		"(oracle only). A case is non-trivial when the options are unambiguous and some value is a non-empty string"
+		"(oracle only); big: round trips through files larger than bufio.Scanner's 4096-byte buffer — the length of one long text value is swept so " +
+		"that a (1-4 byte) line terminator starts at every offset around the 4096 / 8192 / 4096+(bytes of the lines before) refill boundary (offsets measured on the file the engine writes); " +
+		"sp: the real SplitLines on every prefix of a small file (atEOF false) and on the file (atEOF true); sc: real bufio.Scanner + real SplitLines over " +
+		"random chunkings (1 byte at a time, 1-4 bytes, 2-3 chunks, mixed) of files built from whole and partial terminators; lc: LOAD DATA LOCAL through " +
+		"the engine with the same kind of chunked reader (the engine's own scanner and split function). A case is non-trivial when the options are " +
+		"unambiguous and some value is a non-empty string (rt), or more than one token / chunk was involved (sc, lc)"
 	e := eng.New("d")
 	r := &runner{e: e, ctx: e.Ctx(), dir: dir, out: out}
 	rnd := hx.NewRand(a.Seed)
@@ -677,10 +693,25 @@ func run(a hx.RunArgs) error {
 		r.typed(t[0], t[1], t[2])
 	}
 
-	nRT, nRD := 5000, 2000
+	// streaming corpus: a CRLF cut in two by a read boundary, one byte at a time, unterminated last line
+	crlf := opts{ft: ",", enc: "\"", encOpt: true, esc: "\\", lt: "\r\n"}
+	r.loadChunked(crlf, 1, "a\r\nb\r\n", []int{2, 5})
+	r.loadChunked(crlf, 2, "1,\"a\"\r\n2,\\N\r\n3,\"c\"", []int{6})
+	r.loadChunked(crlf, 2, "1,\"a\"\r\n2,\\N\r\n3,\"c\"", []int{1, 1, 1, 1, 1, 1, 1, 1, 1, 1, 1, 1, 1, 1, 1, 1, 1, 1, 1, 1})
+	r.scanCase("\r\n", "a\r\nb\r\nc", []int{2, 1, 1, 1, 1})
+	r.scanCase("\r\n", strings.Repeat("x", 4095)+"\r\nb\r\n", []int{4096})
+	r.splitCase("\r\n", "a\r", false)
+	r.splitCase("\r\n", "a\r", true)
+	r.splitCase("\r\n", "", true)
+
+	nRT, nRD, nStream, nBig := 5000, 2000, 400, 40
 	if a.Thorough {
-		nRT, nRD = 150000, 50000
+		nRT, nRD, nStream, nBig = 150000, 50000, 20000, 300
 	}
+	// the streams that exercise the scanner come first: a change of the streaming reader is the
+	// cheapest to find and its failing inputs are the smallest
+	r.streamCases(rnd.Fork(), nStream)
+	r.bigFiles(rnd.Fork(), nBig, a.Thorough)
 	for i := 0; i < nRT; i++ {
 		o := genOpts(rnd)
 		kinds, rows := genRows(rnd, o)
